@@ -2,7 +2,7 @@
 # usage: keep_seed.sh <name> "<detected by: IDs>" "<missed by: IDs>" "<note>"
 # copies /tmp/seed/<name>/OUT into /verif/seeded/<name>/ and records my own confirmation + detection
 N=$1; DET=$2; MISS=$3; NOTE=${4:-}
-S=/tmp/seed/$N; D=/verif/seeded/$N
+S=/tmp/seed/$N; D=/verif/seeded/${DEST:-$N}
 mkdir -p $D
 cp $S/OUT/patch.diff $S/OUT/demo.diff $D/
 python3 - "$N" "$DET" "$MISS" "$NOTE" <<'PY'
@@ -16,6 +16,7 @@ m['confirmed_by_verif_author']={
   'how':'tools/confirm_seed.sh in the scratch worktree: demo.diff alone -> demo command passes; demo.diff + patch.diff -> demo command fails; patch.diff alone -> pinned suite (cargo nextest, BASELINE.json stable_pass) still passes',
   'demo_exit_without_patch':int(summ.group(1)),'demo_exit_with_patch':int(summ.group(2)),'pinned_suite_with_patch':suite.group(1)}
 m['checks_run_against_it']={'how':'tools/try_patch.sh patch.diff <IDs> (git apply to /repo, rebuild harness, quick tier, git checkout)','detected_by':det.split(),'not_detected_by':miss.split(),'note':note}
-json.dump(m,open(f'/verif/seeded/{n}/meta.json','w'),indent=1)
+import os
+json.dump(m,open(f"/verif/seeded/{os.environ.get('DEST',n)}/meta.json","w"),indent=1)
 print('kept',n)
 PY
